@@ -19,5 +19,12 @@ Proof. split; vm_compute; [repeat constructor|reflexivity]. Qed.
 
 (* the signer's failure path (C15): SignPKCS7 contains no termination site *)
 Definition in_fn (pkg fn : string) (s : site) : bool := String.eqb (s_pkg s) pkg && String.eqb (s_fn s) fn.
-Lemma sign_pkcs7_no_site : existsb (in_fn "pkcs7" "SignPKCS7") generated_sites = false.
+Definition sign_path_has_site : bool :=
+  existsb (in_fn "pkcs7" "SignPKCS7") generated_sites ||
+  existsb (in_fn "authenticode" "SignAuthenticode") generated_sites ||
+  existsb (in_fn "authenticode" "PECOFFBinary.Sign") generated_sites ||
+  existsb (in_fn "efivarfs" "Efivarfs.WriteSignedUpdate") generated_sites ||
+  existsb (in_fn "efivarfs/fswrapper" "FSWrapper.WriteEfivarsWithGuid") generated_sites ||
+  existsb (in_fn "efi/attributes" "WriteEfivarsWithGuid") generated_sites.
+Lemma sign_path_no_site : sign_path_has_site = false.
 Proof. vm_compute. reflexivity. Qed.
